@@ -213,7 +213,8 @@ def _explore_input(seed: int, idx: int, modes: List[str], n_qry: int, with_readb
         inp = pipecases.make_input(rng, n_refs=rng.choice([1, 2, 3]), n_qry=n_qry, kinds=kinds,
                                    repeats=rng.random() < 0.3, small_ids=(idx % 3 == 1),
                                    decimals=not grid, lattice=100 if grid else 0, twins=(idx % 4 == 1),
-                                   short_contigs=2 if idx % 3 == 0 else 0, labelless=(idx % 5 == 2))
+                                   short_contigs=2 if idx % 3 == 0 else 0, labelless=(idx % 5 == 2),
+                                   extra_refs=34 if idx % 8 == 7 else 0)     # > 64 seeding correlations per query
     extra = PARAM_VECTORS[idx % len(PARAM_VECTORS)]
     wd = os.path.join(os.environ.get("VERIF_WORK", "/verif/work"), f"pipe-{os.getpid()}-{seed}-{idx}")
     os.makedirs(wd, exist_ok=True)
